@@ -1,5 +1,6 @@
 //! lv_files: stored-file formats and naming (C14, C15).
 mod api;
+mod catcodec;
 mod envelope;
 mod naming;
 mod objects;
@@ -9,6 +10,7 @@ fn main() {
     let mut v: Vec<Box<dyn lvharness::suite::Suite>> = vec![];
     v.extend(envelope::suites());
     v.extend(objects::suites());
+    v.extend(catcodec::suites());
     v.extend(naming::suites());
     v.extend(api::suites());
     v.extend(opencorrupt::suites());
